@@ -212,13 +212,46 @@ pub async fn run_listener(
             .clone() // cheap
             .with_client_addr(Some(peer));
         if let Some(tls_config) = &tls_config {
-            tokio::spawn(serve_connection_tls(
+            // The identity is looked up when the handshake starts, not here:
+            // a peer may keep its connection silent across a reload.
+            tokio::spawn(serve_connection_tls_current(
                 stream,
                 new_state,
-                tls_config.load_full(),
+                tls_config.clone(), // cheap
             ));
         } else {
             tokio::spawn(serve_connection(MaybeTlsStream::Plain(stream), new_state));
+        }
+    }
+}
+
+/// Serves a single connection from a client with TLS, ignoring errors.
+/// The TLS identity used is the one current when the client starts its
+/// handshake, so that an identity replaced at run time is never used for a
+/// handshake that begins after the replacement.
+async fn serve_connection_tls_current(stream: TcpStream, state: State, tls_config: TlsIdentity) {
+    let tls_timeout = state.tls_timeout;
+    #[cfg(feature = "tls-rustls")]
+    let stream_future = async {
+        // Wait for the `ClientHello` before choosing the configuration
+        let acceptor = rustls::server::Acceptor::default();
+        let start = tokio_rustls::LazyConfigAcceptor::new(acceptor, stream).await?;
+        start.into_stream(tls_config.load_full()).await
+    };
+    // `native-tls` cannot wait for the `ClientHello`; at least do not take the
+    // identity before this task runs.
+    #[cfg(feature = "tls-native")]
+    let stream_future = async { tls_config.load_full().accept(stream).await };
+
+    match state.tls_timeout.timeout(stream_future).await {
+        Ok(Ok(stream)) => {
+            serve_connection(stream.into(), state).await;
+        }
+        Ok(Err(err)) => {
+            error!("TLS handshake error: {err}");
+        }
+        Err(_) => {
+            error!("TLS handshake timed out after {tls_timeout}");
         }
     }
 }
